@@ -4,6 +4,7 @@ CONSTANTS
   Keys <- Keys2
   Full = TRUE
   MaxSteps = 5
+  Subs <- SubsFew
   MaxNote = 3
   Fix <- NoFix
 VIEW View
